@@ -140,8 +140,10 @@ def run(ctx):
         ok = o[0] == "call" and re.search(r"Vec::<T>::(with_capacity|new)$", o[1]) is not None
         ctx.ob("C19.2", "%s|starts-empty" % g.id, "a new Response starts with an empty header list (not the caller's vector)", ok, g.loc(bb), origin_str(o))
     ctx.floor("C19.2 constructions of the header list in the constructor", n_cons, 1)
-    adds = rnew.call_blocks(lambda t: call_name(t) in admit)
-    ctx.ob("C19.2", "%s|param-through-add_header" % rnew.id, "the constructor adds the supplied headers one by one through add_header", len(adds) >= 1 and all(rnew.in_loop(b) for b in adds), "%s:%d" % (rnew.file, rnew.line))
+    # (with the constructor's helpers and closures spliced in, and iterator consumers such as for_each read as the loops they are)
+    rn = inline.inlined(facts, rnew.id, stop=lambda d: facts.fns[d].rec.get("local") and (facts.fns[d].file != rnew.file or d in admit), extern_ok=Q.std_small)
+    adds = rn.call_blocks(lambda t: call_name(t) in admit)
+    ctx.ob("C19.2", "%s|param-through-add_header" % rnew.id, "the constructor adds the supplied headers one by one through add_header", len(adds) >= 1 and all(rn.in_loop(b) for b in adds), "%s:%d" % (rnew.file, rnew.line))
     # uses of the `headers` parameter (local 2): only into_iter
     uses = [u for u in rnew.uses().get(2, [])]
     ok = all((u[0] == "term" and call_matches(u[2], r"IntoIterator>::into_iter$|into_iter$")) or (u[0] == "stmt" and u[4] == "move") or (u[0] == "term" and u[4] == "drop") for u in uses)
@@ -185,7 +187,7 @@ def run(ctx):
     ctx.require(len(bds) == 1, "C19.3: the function that builds the Date header (SystemTime::now) in the response module")
     bd = bds[0]
     o = bd.origin_place({"l": 0, "p": []})
-    ok = origin_has_call(o, r"SystemTime::now$") and origin_has_call(o, r"HttpDate") and b"Date" in [x[1] for x in origin_walk(o) if x[0] == "const"]
+    ok = origin_has_call(o, r"SystemTime::now$") and origin_has_call(o, r"HttpDate") and bool({b"Date", "Date"} & {x[1] for x in origin_walk(o) if x[0] == "const" and isinstance(x[1], (str, bytes))})
     ctx.ob("C19.3", "%s|current-time" % bd.id, "the Date header is the current system time formatted by HttpDate", ok, "%s:%d" % (bd.file, bd.line), origin_str(o)[:200])
 
     # ---- C19.4 constructors declare the byte length of what they wrap (symbolic evaluation of each constructor with its helpers spliced in)
@@ -248,7 +250,9 @@ def run(ctx):
     ctx.ob("C19.4", "%s|stores-arguments" % wd.id, "with_data stores the reader and length it is given", ok, "%s:%d" % (wd.file, wd.line))
 
     # ---- C19.5 serialisation: each stored header once, in order
-    wmh = M.head_writer
+    wmh0 = M.head_writer
+    # (with the helpers of its file spliced in: a header line may have a writer of its own)
+    wmh = inline.inlined(facts, wmh0.id, stop=lambda d: facts.fns[d].rec.get("local") and facts.fns[d].file != wmh0.file)
     ctx.touch(wmh)
     iters = [bb for bb, t in wmh.calls() if call_matches(t, r"<impl \[T\]>::iter$|<impl \[common::Header\]>::iter$|<impl std::iter::IntoIterator for &'a \[T\]>::into_iter$|IntoIterator for &'a std::vec::Vec<T(, A)?>>::into_iter$")]
     nexts = [bb for bb, t in wmh.calls() if call_matches(t, r"slice::Iter<.*> as std::iter::Iterator>::next$")]
